@@ -22,6 +22,12 @@ CHECK = {'level': 'model_checking',
             'run': '^TestVerifC10Core$',
             'rewrite': {'sync': ['internal', 'sdk']},
             'shards': {'quick': 8, 'thorough': 8},
+            'timeout': {'quick': 900, 'thorough': 3000}},
+           {'name': 'corehist',
+            'pkg': './internal/verifh/core',
+            'run': '^TestVerifC10CoreHist$',
+            'rewrite': {'sync': ['internal', 'sdk']},
+            'shards': {'quick': 16, 'thorough': 16},
             'timeout': {'quick': 900, 'thorough': 3000}}]}
 
 META = {'engines': 'E0 E2 E3',
